@@ -7,8 +7,8 @@ package main
 // Every call runs in a *worker process* (this binary re-executed with "worker"): the parent hands it one input line,
 // waits for one observation line and kills it when it does not answer - a goroutine stuck in an endless loop cannot
 // be stopped any other way, and a fatal runtime error (stack overflow, out of memory) is not recoverable in-process.
-// A call that exceeds the time bound is executed once more in a fresh worker with a longer bound before it is recorded
-// as hang = 1 (the machine is shared; one slow call must not look like non-termination).
+// The time bound is 2 s of *processor* time consumed by the call (the machine is shared; a call that merely waits for
+// a processor must not look like non-termination), with a wall-clock limit of 30 s.
 //
 // Besides the call under observation the worker performs the *bare* call (same writer, contents and hints, requested
 // size 0x0, MARGIN 0): its result is the module matrix of the symbol itself (QR: no quiet zone, 1-D: one pixel per
@@ -24,6 +24,7 @@ import (
 	"os/exec"
 	"runtime"
 	"sync"
+	"syscall"
 	"time"
 
 	"github.com/makiuchi-d/gozxing"
@@ -212,13 +213,44 @@ func call(wr gozxing.Writer, c string, f gozxing.BarcodeFormat, w, h int, hm map
 			}
 		}
 	}()
-	select {
-	case o := <-ch:
-		o.ms = int(time.Since(t0) / time.Millisecond)
-		return o
-	case <-time.After(bound):
-		return outcome{hang: 1, ms: int(time.Since(t0) / time.Millisecond), msg: "no return within the time bound"}
+	// The time bound is CPU time: on a loaded machine a call may wait for a processor much longer than it computes.
+	// A call that has burnt `bound` of processor time (this process does nothing else), or has not returned after
+	// wallLimit whatever it burnt, is recorded as a hang.
+	c0, n := cpuTime(), 0
+	tick := time.NewTicker(20 * time.Millisecond)
+	defer tick.Stop()
+	for {
+		select {
+		case o := <-ch:
+			o.ms = int(time.Since(t0) / time.Millisecond)
+			return o
+		case <-tick.C:
+			if cpuTime()-c0 >= bound || time.Since(t0) >= wallLimit {
+				return outcome{hang: 1, ms: int(time.Since(t0) / time.Millisecond), msg: "no return within the time bound"}
+			}
+			if n++; n%10 == 0 { // a loop that only grows its output must not take the (shared) machine down
+				var ms runtime.MemStats
+				runtime.ReadMemStats(&ms)
+				if ms.HeapAlloc > heapLimit {
+					return outcome{hang: 1, ms: int(time.Since(t0) / time.Millisecond), msg: "no return before 1.5 GB were allocated"}
+				}
+			}
+		}
 	}
+}
+
+const (
+	wallLimit = 30 * time.Second
+	heapLimit = 1536 << 20
+)
+
+// cpuTime is the processor time (user + system) this process has consumed.
+func cpuTime() time.Duration {
+	var ru syscall.Rusage
+	if err := syscall.Getrusage(syscall.RUSAGE_SELF, &ru); err != nil {
+		return 0
+	}
+	return time.Duration(ru.Utime.Nano() + ru.Stime.Nano())
 }
 
 func resolve(kind, v, sym int) int {
@@ -365,15 +397,12 @@ func (p *proc) ask(raw []byte, boundMs int) (resp []byte, died, timeout bool) {
 			return nil, true, false
 		}
 		return a.line, false, false
-	case <-time.After(time.Duration(2*boundMs+3000) * time.Millisecond):
+	case <-time.After(2*wallLimit + 15*time.Second):
 		return nil, false, true
 	}
 }
 
-const (
-	bound1 = 2000 // ms: the time bound of the property's reading
-	bound2 = 8000 // ms: confirmation run of a call that exceeded bound1
-)
+const bound1 = 2000 // ms of processor time: the time bound of the property's reading
 
 func parent(inPath, outPath string) error {
 	in, err := os.Open(inPath)
@@ -429,7 +458,7 @@ func parent(inPath, outPath string) error {
 					continue
 				}
 				var final []byte
-				for attempt, bound := range []int{bound1, bound2} {
+				for _, bound := range []int{bound1} {
 					if p == nil {
 						var err error
 						if p, err = spawn(); err != nil {
@@ -470,9 +499,6 @@ func parent(inPath, outPath string) error {
 						break
 					}
 					if timeout || e.Hang == 1 {
-						if attempt == 0 {
-							continue // confirm with the longer bound
-						}
 						if timeout {
 							json.Unmarshal(lines[i], &e)
 							e.Hang, e.Msg = 1, "worker unresponsive"
